@@ -17,7 +17,66 @@
 
 static uint8_t buf[32];
 
+#ifdef MODE_OBSERVE
+/* S3 (observation): what can a reader in another thread see in an index entry
+ * while a build runs?  goto-instrument --isr inserts a call of vf_isr() before
+ * every access to the two arrays: the "interrupt" is the other thread's atomic
+ * load, taken at one nondeterministic point of the build.  (One preempting
+ * reader at access granularity: a real, bounded interleaving query.) */
+#ifdef VF_CBMC
+static int obs_on, obs_seen, obs_k, obs_i, obs_o;
+_Bool nondet_bool(void);
+void vf_isr(void) {
+  if (obs_on && nondet_bool()) {
+    obs_i = instr_table_index[obs_k]; obs_o = opd_format_table_index[obs_k];
+    obs_seen = 1; obs_on = 0;
+  }
+}
+#else
+#include <pthread.h>
+static volatile int stop_flag; static int rd_k, rd_Fi, rd_Fo, rd_zero; static volatile long bad_seen;
+static void *reader(void *a) {
+  (void)a;
+  while (!stop_flag) {
+    int vi = instr_table_index[rd_k], vo = opd_format_table_index[rd_k];
+    if (!(vi == rd_Fi || (rd_zero && vi == 0)) || !(vo == rd_Fo || (rd_zero && vo == 0))) bad_seen++;
+  }
+  return NULL;
+}
+#endif
+#endif
+
 void harness(void) {
+#ifdef MODE_OBSERVE
+  unsigned long k = IN(0), zero = IN(1);
+  ASSUME(k < LETTERS_IN_ALPHABET && zero < 2);
+  assemblyline_t al0 = asm_create_instance(buf, 32);
+  ASSUME(al0 != NULL);
+  int Fi = instr_table_index[k], Fo = opd_format_table_index[k];
+  if (zero)      /* the state at process start */
+    for (int j = 0; j < LETTERS_IN_ALPHABET; j++) { instr_table_index[j] = 0; opd_format_table_index[j] = 0; }
+#ifdef VF_CBMC
+  obs_k = (int)k; obs_on = 1;
+  assemblyline_t al1 = asm_create_instance(buf, 32);
+  obs_on = 0;
+  ASSUME(al1 != NULL);
+  if (obs_seen) {
+    CHECK(obs_i == Fi || (zero && obs_i == 0), "a reader in another thread sees in an instruction-index entry only its initial or its final value while a build runs");
+    CHECK(obs_o == Fo || (zero && obs_o == 0), "a reader in another thread sees in a format-index entry only its initial or its final value while a build runs");
+  }
+#else
+  rd_k = (int)k; rd_Fi = Fi; rd_Fo = Fo; rd_zero = (int)zero;
+  pthread_t t; pthread_create(&t, NULL, reader, NULL);
+  for (long it = 0; it < 400000 && !bad_seen; it++) {
+    if (zero) for (int j = 0; j < LETTERS_IN_ALPHABET; j++) { instr_table_index[j] = 0; opd_format_table_index[j] = 0; }
+    assemblyline_t a = asm_create_instance(buf, 32);
+    if (a) asm_destroy_instance(a);
+  }
+  stop_flag = 1; pthread_join(t, NULL);
+  printf("reader saw %ld non-final values\n", (long)bad_seen);
+  CHECK(bad_seen == 0, "a reader in another thread sees in an index entry only its initial or its final value while a build runs");
+#endif
+#endif
 #ifdef MODE_BUILD
   int init_i[LETTERS_IN_ALPHABET], init_o[LETTERS_IN_ALPHABET];
   for (int k = 0; k < LETTERS_IN_ALPHABET; k++) {
